@@ -9,6 +9,7 @@ import (
 	"regexp"
 	"strings"
 	"testing"
+	"time"
 
 	"github.com/NethermindEth/juno/verifh/lib"
 )
@@ -566,6 +567,7 @@ func TestC14(t *testing.T) {
 		t.Fatal(err)
 	}
 	r := lib.Start("C14", "fault_enumeration")
+	t0 := time.Now()
 	n := r.N(40, 600)
 	tornPerScript := 260
 	if !r.Quick() {
@@ -575,7 +577,9 @@ func TestC14(t *testing.T) {
 		sc := genCase(lib.Rng("C14/script", uint64(idx)), idx)
 		runScript(r, idx, sc, tornPerScript)
 	})
+	t1 := time.Now()
 	straceLayer(r, t)
+	r.Note(fmt.Sprintf("timing (information only): in-process layers %.0fs, strace layers %.0fs", t1.Sub(t0).Seconds(), time.Since(t1).Seconds()))
 	r.Assume("a crash image is a copy of the WAL directory: killing a process keeps the page cache, so loss of unsynced data is modelled only for the tail of the newest log file (cut / bit flip / zero fill / garbage) - multi-file power-loss reorderings are not explored")
 	r.Assume("pebble's record framing (CRC32 per chunk) is trusted to reject a corrupted chunk; the harness re-derives record boundaries with its own 30-line parser")
 	r.Assume("strace's signal=KILL injection stops the process before the N-th matching syscall of a thread takes effect; the reached position is read back from the trace")
